@@ -3,16 +3,23 @@
 import json, os
 VERIF = os.path.dirname(os.path.dirname(os.path.abspath(__file__)))
 
-CHECKS = {
- "C11": dict(level="model_checking", design="DESIGN.md §4 C11",
-    technique="TLA+ operator semantics (I32/F32/ExprSem) enumerated by TLC, every case replayed into the real const folder / const evaluator / lowering (spec -> impl replay)",
-    text="TLC enumerates every operator over boundary operands with the value the TLA+ transcription of the documented machine semantics assigns (in-model: algebraic sanity of the transcription, closure, definedness), and every enumerated case is replayed into three real code paths (const_simplify, evaluate_const_vars, lowering of named vs inline constants). Exhaustive over the enumerated domain; the spec is a third, independent implementation of the operator table.",
-    note="Trusted: TLC, CommunityModules Json, the harness renderer (JSON -> source text). Float results outside the exact (dyadic) envelope are not decided; && and || compared by truthiness."),
- "C06": dict(level="translation_validation", design="DESIGN.md §4 C06, §3 (SrcSem rules)",
-    technique="TLC model-checks the product of the TLA+ script machine (AstSem) on the real parser's block tree and on the real desugar_blocks output, from every initial register valuation x difficulty (translation validation of each pass run)",
-    text="For each generated structured program the harness exports the block tree as the real parser produced it and the flat statement list the real desugar_blocks pass produced (both counting-jump flavours); TLC explores the product of the L1 machine on both from all valuations of the mentioned registers over a 3/4-value domain and all difficulties and checks at every state that the flat side's call log is a prefix of the source's, and at termination equal logs (with time and real time of each call), final time, real time and registers.",
-    note="Trusted: TLC; structural AST->JSON exporter and JSON->text renderer; the reading of doc/syntax.md in AstSem.tla (falling through never changes time, implicit jumps set the lexical time of their target). Bounded: 150 source steps, non-negative times() counts, dyadic floats."),
-}
+import importlib, sys
+sys.path.insert(0, VERIF)
+
+
+def load_checks():
+    out = {}
+    for f in sorted(os.listdir(os.path.join(VERIF, "checks"))):
+        m = __import__("re").match(r"(c\d+)\.py$", f)
+        if not m:
+            continue
+        mod = importlib.import_module("checks." + m.group(1))
+        if getattr(mod, "MANIFEST", None):
+            out[m.group(1).upper()] = dict(mod.MANIFEST, level=mod.LEVEL)
+    return out
+
+
+CHECKS = load_checks()
 
 NOT_YET = {}
 
